@@ -21,14 +21,17 @@ def families(tier, seed):
 
 def main():
     chk = Check("C16", "exploration")
-    driver.run_family(
-        chk, "population-vs-explicit-network", families(chk.tier, chk.seed), cases.case_fn, site="C16/population",
+    _cases = families(chk.tier, chk.seed)
+    _results = driver.run_family(
+        chk, "population-vs-explicit-network", _cases, cases.case_fn, site="C16/population",
         rule="populations of n = 1,2,3,5 units with heterogeneous per-unit parameters AND initial states; signed, sparse, "
              "non-symmetric, non-square weight matrices between one or two populations; scalar weights (w * sum_j source_j); a "
              "one-unit hub with params; Connectivity delays (discrete, incl. 0.3/0.1) and gamma kernels ((d,s) with round-up and "
              "inexact ratios); each unit's Euler trajectory against the spec of the explicit network with one node per unit and "
              "one scalar edge per non-zero matrix entry; distinct = (scenario, seed)",
         sample_of=lambda c: {k: v for k, v in c.items() if k != "features"})
+    driver.run_sequences(chk, "population-vs-explicit-network-in-sequence", _cases, _results, cases.case_fn, site="C16/population",
+                         limit=20 if chk.tier == "quick" else 120, seed=chk.seed)
     rc = chk.finish(
         explanation="Bounded: unit-by-unit comparison of run() of the population circuit with the reference semantics of the "
                     "explicit network (so transposition of W, unit permutations and swapped broadcasting are visible).",
